@@ -319,15 +319,30 @@ func runFuzz(t *simrt.Tape, keep bool) simrt.Outcome {
 			parser = kind
 		}
 	}
+	var foreignSeqs []uint64
+	if !fromCorpus && t.Prob(1, 20) {
+		// type definitions of another writer: fields Result lacks, of types the stream defines itself
+		data, foreignSeqs, origin = foreignGobDoc(t)
+		kind, parser = "results-gob", []string{"gob", "auto"}[t.Choose(2)]
+		r.stats["fault.foreign-gob-type-definitions"]++
+		if t.Prob(1, 3) {
+			for k := 1 + t.Choose(3); k > 0 && len(data) > 0; k-- {
+				data[t.Choose(len(data))] ^= byte(1 << t.Choose(8))
+			}
+			foreignSeqs, origin = nil, origin+", damaged"
+			r.stats["fault.foreign-gob-type-definitions-damaged"]++
+		}
+	}
 	if parser == "targets-http" {
 		data = confine(data)
 	}
 	rd := simrt.NewSimReader(t, data)
 	limit := len(data) + 2
 	var (
-		okN     int
-		lastErr error
-		m0, m1  runtime.MemStats
+		okN       int
+		foreignOK int
+		lastErr   error
+		m0, m1    runtime.MemStats
 	)
 	runtime.ReadMemStats(&m0)
 	hung := bounded(r, parser+" parser on "+origin, func() {
@@ -346,6 +361,9 @@ func runFuzz(t *simrt.Tape, keep bool) simrt.Outcome {
 				var res vegeta.Result
 				if lastErr = dec.Decode(&res); lastErr != nil {
 					return
+				}
+				if okN < len(foreignSeqs) && res.Seq == foreignSeqs[okN] {
+					foreignOK++
 				}
 				okN++
 			}
@@ -373,7 +391,10 @@ func runFuzz(t *simrt.Tape, keep bool) simrt.Outcome {
 	alloc := m1.TotalAlloc - m0.TotalAlloc
 	r.log.Addf("%s parser=%s bytes=%d ok=%d reads=%d err=%v", origin, parser, len(data), okN, rd.Reads, lastErr != nil)
 	sample := map[string]any{"input": origin, "parser": parser, "bytes": len(data), "calls_ok": okN, "reads": rd.Reads}
-	tags := map[string]string{"parser": parser}
+	tags := map[string]string{"parser": parser, "input": strings.TrimSuffix(origin, ", damaged")}
+	if fromCorpus {
+		tags["input"] = "corpus document"
+	}
 	switch {
 	case hung:
 		r.fail("C16", "C16.hang", map[string]string{"parser": parser, "nominimise": "1"}, "%s parser did not return within 45s on a %d byte input (%s)", parser, len(data), origin)
@@ -383,7 +404,21 @@ func runFuzz(t *simrt.Tape, keep bool) simrt.Outcome {
 	case rd.Reads > 16*len(data)+4096:
 		r.fail("C16", "C16.read-calls", tags, "%s parser issued %d Read calls for a %d byte input", parser, rd.Reads, len(data))
 	case alloc > 64<<20+256*uint64(len(data)):
-		r.fail("C16", "C16.memory", tags, "%s parser allocated %d bytes for a %d byte input (%s)", parser, alloc, len(data), origin)
+		// (the measured figure goes into the parameters, not into the text: it differs by a few bytes from one
+		// replay to the next)
+		limit := 64<<20 + 256*uint64(len(data))
+		r.fail("C16", "C16.memory", tags, "%s parser allocated more than %d bytes (64 MiB + 256 per input byte) for a %d byte input (%s)", parser, limit, len(data), origin)
+		if r.viol != nil && r.viol.Class == "C16.memory" {
+			r.viol.Params = map[string]float64{"alloc_bytes": float64(alloc), "input_bytes": float64(len(data)), "over_threshold_ratio": float64(alloc) / float64(limit)}
+		}
+	}
+	if foreignSeqs != nil {
+		// the generator's own health: an undamaged stream of foreign types is a valid gob stream
+		if foreignOK == len(foreignSeqs) {
+			r.stats["probe.foreign-gob-types-decoded-in-full"]++
+		} else {
+			r.stats["probe.foreign-gob-types-not-decoded"]++
+		}
 	}
 	r.stats["probe.parser."+parser]++
 	if okN > 0 {
